@@ -236,7 +236,8 @@ def gen_tzmix(rng, N):
     """How the instants of a history are written down: process time zone, one representation per store, one for fresh_time."""
     kinds = ["naive", "naive", "utc", "off"]
     return {"tz": rng.choice(TZ_ZONES), "kinds": [rng.choice(kinds) for _ in range(N)], "fresh": rng.choice(kinds),
-            "off": rng.choice([-720, -480, -210, 0, 330, 345, 840])}
+            "off": rng.choice([-720, -480, -210, 0, 330, 345, 840]),
+            "base": rng.choice([947894400, 947894400, 947894400, 4103740800])}
 
 
 def run_history(task):
